@@ -1,3 +1,347 @@
-import Ruint.Model.Shift
+import Ruint.Lemmas.Shift
+
+/-!
+# C05 — shifts and rotations move bits exactly and report lost bits exactly
+
+Property theorems only (helper lemmas live in `Lemmas/Shift.lean`, `Lemmas/Bits.lean`). Every theorem
+quantifies over **all** widths `bits` (including 0, 1 and non-multiples of 64), all canonical values and
+**all** shift amounts `s : ℕ` (so also `s ≥ bits`, `s ≥ 64·LIMBS`, `s ≥ 2^64`).
+The model functions (`Ruint.Shift.*`, file `Model/Shift.lean`) are the ones the correspondence
+driver executes against the real `Uint` methods and operators; they mirror the limb algorithm of
+`src/bits.rs` after the two `fix:` commits (lost-bit flags, `Uint`-typed amounts).
+-/
 namespace Ruint.C05
+open Ruint Ruint.Bits Ruint.Shift
+
+/-- `overflowing_shl`: canonical result, value `a·2^s mod 2^bits`, flag iff a non-zero bit is
+    shifted out (`a·2^s ≥ 2^bits`). -/
+theorem overflowing_shl_spec (bits : ℕ) (a : List ℕ) (s : ℕ) (ha : Canon bits a) :
+    Canon bits (overflowingShl bits a s).1
+    ∧ val (overflowingShl bits a s).1 = val a * 2 ^ s % 2 ^ bits
+    ∧ ((overflowingShl bits a s).2 = true ↔ 2 ^ bits ≤ val a * 2 ^ s) :=
+  overflowingShl_spec bits a s ha.1 ha.2.1
+
+/-- `overflowing_shr`: canonical result, value `⌊a / 2^s⌋`, flag iff a non-zero bit is shifted out
+    (`2^s ∤ a`). -/
+theorem overflowing_shr_spec (bits : ℕ) (a : List ℕ) (s : ℕ) (ha : Canon bits a) :
+    Canon bits (overflowingShr bits a s).1
+    ∧ val (overflowingShr bits a s).1 = val a / 2 ^ s
+    ∧ ((overflowingShr bits a s).2 = true ↔ ¬ 2 ^ s ∣ val a) := by
+  obtain ⟨h1, h2, h3, h4⟩ := overflowingShr_spec bits a s ha.1 ha.2.1
+  refine ⟨⟨h1, h2, ?_⟩, h3, ?_⟩
+  · rw [h3]; exact lt_of_le_of_lt (Nat.div_le_self _ _) ha.val_lt
+  · rw [h4, Nat.dvd_iff_mod_eq_zero]
+
+theorem wrapping_shl_spec (bits : ℕ) (a : List ℕ) (s : ℕ) (ha : Canon bits a) :
+    Canon bits (wrappingShl bits a s) ∧ val (wrappingShl bits a s) = val a * 2 ^ s % 2 ^ bits :=
+  ⟨(overflowing_shl_spec bits a s ha).1, (overflowing_shl_spec bits a s ha).2.1⟩
+
+theorem wrapping_shr_spec (bits : ℕ) (a : List ℕ) (s : ℕ) (ha : Canon bits a) :
+    Canon bits (wrappingShr bits a s) ∧ val (wrappingShr bits a s) = val a / 2 ^ s :=
+  ⟨(overflowing_shr_spec bits a s ha).1, (overflowing_shr_spec bits a s ha).2.1⟩
+
+/-- `checked_shl = Some(a·2^s)` exactly when the product fits, `None` otherwise. -/
+theorem checked_shl_spec (bits : ℕ) (a : List ℕ) (s : ℕ) (ha : Canon bits a) :
+    (val a * 2 ^ s < 2 ^ bits →
+      ∃ r, checkedShl bits a s = some r ∧ Canon bits r ∧ val r = val a * 2 ^ s)
+    ∧ (2 ^ bits ≤ val a * 2 ^ s → checkedShl bits a s = none) := by
+  obtain ⟨h1, h2, h3⟩ := overflowing_shl_spec bits a s ha
+  unfold checkedShl
+  generalize overflowingShl bits a s = r at *
+  obtain ⟨v, f⟩ := r
+  cases f
+  · simp only at h1 h2 h3 ⊢
+    have hlt : val a * 2 ^ s < 2 ^ bits := by
+      by_contra hc; have := h3.2 (by omega); simp at this
+    exact ⟨fun _ => ⟨v, rfl, h1, by rw [h2, Nat.mod_eq_of_lt hlt]⟩, fun h => by omega⟩
+  · simp only at h3 ⊢
+    have := h3.1 trivial
+    exact ⟨fun h => by omega, fun _ => by simp⟩
+
+/-- `checked_shr = Some(a / 2^s)` exactly when the division is exact, `None` otherwise. -/
+theorem checked_shr_spec (bits : ℕ) (a : List ℕ) (s : ℕ) (ha : Canon bits a) :
+    (2 ^ s ∣ val a → ∃ r, checkedShr bits a s = some r ∧ Canon bits r ∧ val r = val a / 2 ^ s)
+    ∧ (¬ 2 ^ s ∣ val a → checkedShr bits a s = none) := by
+  obtain ⟨h1, h2, h3⟩ := overflowing_shr_spec bits a s ha
+  unfold checkedShr
+  generalize overflowingShr bits a s = r at *
+  obtain ⟨v, f⟩ := r
+  cases f
+  · simp only at h1 h2 h3 ⊢
+    have hd : 2 ^ s ∣ val a := by
+      by_contra hc; have := h3.2 hc; simp at this
+    exact ⟨fun _ => ⟨v, rfl, h1, h2⟩, fun h => absurd hd h⟩
+  · simp only at h3 ⊢
+    have := h3.1 trivial
+    exact ⟨fun h => absurd h this, fun _ => by simp⟩
+
+/-- `saturating_shl = min(a·2^s, 2^bits − 1)`. -/
+theorem saturating_shl_spec (bits : ℕ) (a : List ℕ) (s : ℕ) (ha : Canon bits a) :
+    Canon bits (saturatingShl bits a s)
+    ∧ val (saturatingShl bits a s) = min (val a * 2 ^ s) (2 ^ bits - 1) := by
+  obtain ⟨h1, h2, h3⟩ := overflowing_shl_spec bits a s ha
+  unfold saturatingShl
+  generalize overflowingShl bits a s = r at *
+  obtain ⟨v, f⟩ := r
+  cases f
+  · simp only at h1 h2 h3 ⊢
+    have hlt : val a * 2 ^ s < 2 ^ bits := by
+      by_contra hc; have := h3.2 (by omega); simp at this
+    exact ⟨h1, by rw [h2, Nat.mod_eq_of_lt hlt]; omega⟩
+  · simp only at h3 ⊢
+    have := h3.1 trivial
+    exact ⟨(maxU_canon bits).1, by rw [(maxU_canon bits).2]; omega⟩
+
+/-- every integer-typed `<<` (`usize, u8..u64, isize, i8..i64` with a non-negative amount, by value,
+    by reference, and the assign forms) is `wrapping_shl` by the amount's value. -/
+theorem shl_int_spec (bits : ℕ) (a : List ℕ) (s : ℕ) (ha : Canon bits a) :
+    Canon bits (shlInt bits a s) ∧ val (shlInt bits a s) = val a * 2 ^ s % 2 ^ bits :=
+  wrapping_shl_spec bits a s ha
+
+theorem shr_int_spec (bits : ℕ) (a : List ℕ) (s : ℕ) (ha : Canon bits a) :
+    Canon bits (shrInt bits a s) ∧ val (shrInt bits a s) = val a / 2 ^ s :=
+  wrapping_shr_spec bits a s ha
+
+/-- `rotate_left` at the value level: with `k = s mod bits`, the result is
+    `(a·2^k + ⌊a / 2^(bits−k)⌋) mod 2^bits` — the low `bits−k` bits move up by `k`, the top `k` bits
+    wrap around to the bottom. (`bits = 0`: the only value is 0 and the formula reads `… mod 1`.) -/
+theorem rotate_left_spec (bits : ℕ) (a : List ℕ) (s : ℕ) (ha : Canon bits a) :
+    Canon bits (rotateLeft bits a s)
+    ∧ val (rotateLeft bits a s)
+        = (val a * 2 ^ (s % bits) + val a / 2 ^ (bits - s % bits)) % 2 ^ bits
+    ∧ val (rotateLeft bits a s) = rotlNat bits (val a) (s % bits) := by
+  unfold rotateLeft
+  rcases Nat.eq_zero_or_pos bits with h0 | hpos
+  · subst h0
+    have ea := canon_zero_bits a ha
+    subst ea
+    simp [(zero_canon 0).1, (zero_canon 0).2, rotlNat, Nat.mod_one]
+  · have hne : bits ≠ 0 := by omega
+    simp only [hne, if_false]
+    have hk : s % bits < bits := Nat.mod_lt _ hpos
+    obtain ⟨l1, l2⟩ := wrapping_shl_spec bits a (s % bits) ha
+    obtain ⟨r1, r2⟩ := wrapping_shr_spec bits a (bits - s % bits) ha
+    obtain ⟨o1, o2, o3⟩ := bitOr_spec _ _ (by rw [l1.1, r1.1]) l1.2.1 r1.2.1
+    obtain ⟨q1, q2, q3⟩ := rotl_or bits (val a) (s % bits) (by omega) ha.val_lt
+    have hv : val (bitOr (wrappingShl bits a (s % bits)) (wrappingShr bits a (bits - s % bits)))
+        = rotlNat bits (val a) (s % bits) := by rw [o1, l2, r2, q1]
+    exact ⟨⟨by rw [o2, l1.1], o3, by rw [hv]; exact q3⟩, by rw [hv, q2], hv⟩
+
+/-- `rotate_right` at the value level: with `k = s mod bits`, the result is
+    `(⌊a / 2^k⌋ + a·2^(bits−k)) mod 2^bits`. -/
+theorem rotate_right_spec (bits : ℕ) (a : List ℕ) (s : ℕ) (ha : Canon bits a) :
+    Canon bits (rotateRight bits a s)
+    ∧ val (rotateRight bits a s)
+        = (val a / 2 ^ (s % bits) + val a * 2 ^ (bits - s % bits)) % 2 ^ bits
+    ∧ val (rotateRight bits a s) = rotlNat bits (val a) ((bits - s % bits) % bits) := by
+  unfold rotateRight
+  rcases Nat.eq_zero_or_pos bits with h0 | hpos
+  · subst h0
+    have ea := canon_zero_bits a ha
+    subst ea
+    simp [(zero_canon 0).1, (zero_canon 0).2, rotlNat, Nat.mod_one]
+  · have hne : bits ≠ 0 := by omega
+    simp only [hne, if_false]
+    obtain ⟨h1, h2, h3⟩ := rotate_left_spec bits a (bits - s % bits) ha
+    refine ⟨h1, ?_, h3⟩
+    rw [h2]
+    have hk : s % bits < bits := Nat.mod_lt _ hpos
+    by_cases hz : s % bits = 0
+    · have hA := ha.val_lt
+      rw [hz, Nat.sub_zero, Nat.mod_self, Nat.sub_zero, pow_zero, Nat.mul_one, Nat.div_one,
+        Nat.div_eq_of_lt hA, Nat.add_zero, Nat.add_mul_mod_self_right]
+    · have e1 : (bits - s % bits) % bits = bits - s % bits := Nat.mod_eq_of_lt (by omega)
+      have e2 : bits - (bits - s % bits) = s % bits := by omega
+      rw [e1, e2, Nat.add_comm]
+
+/-- rotations are mutually inverse bijections of the `bits`-wide words. -/
+theorem rotate_right_left (bits : ℕ) (a : List ℕ) (s : ℕ) (ha : Canon bits a) :
+    rotateRight bits (rotateLeft bits a s) s = a := by
+  obtain ⟨l1, _, l3⟩ := rotate_left_spec bits a s ha
+  obtain ⟨r1, _, r3⟩ := rotate_right_spec bits (rotateLeft bits a s) s l1
+  apply canon_ext bits _ _ r1 ha
+  rw [r3, l3]
+  rcases Nat.eq_zero_or_pos bits with h0 | hpos
+  · subst h0
+    have := ha.val_lt
+    simp [rotlNat, Nat.mod_one] at this ⊢
+  · have hk : s % bits < bits := Nat.mod_lt _ hpos
+    by_cases hz : s % bits = 0
+    · have hA := ha.val_lt
+      simp [hz, rotlNat, Nat.mod_eq_of_lt hA, Nat.div_eq_of_lt hA]
+    · have e1 : (bits - s % bits) % bits = bits - s % bits := Nat.mod_eq_of_lt (by omega)
+      rw [e1]
+      exact rotl_rotl_inv bits (val a) (s % bits) (by omega) ha.val_lt
+
+theorem rotate_left_right (bits : ℕ) (a : List ℕ) (s : ℕ) (ha : Canon bits a) :
+    rotateLeft bits (rotateRight bits a s) s = a := by
+  obtain ⟨r1, _, r3⟩ := rotate_right_spec bits a s ha
+  obtain ⟨l1, _, l3⟩ := rotate_left_spec bits (rotateRight bits a s) s r1
+  apply canon_ext bits _ _ l1 ha
+  rw [l3, r3]
+  rcases Nat.eq_zero_or_pos bits with h0 | hpos
+  · subst h0
+    have := ha.val_lt
+    simp [rotlNat, Nat.mod_one] at this ⊢
+  · have hk : s % bits < bits := Nat.mod_lt _ hpos
+    by_cases hz : s % bits = 0
+    · have hA := ha.val_lt
+      simp [hz, rotlNat, Nat.mod_eq_of_lt hA, Nat.div_eq_of_lt hA]
+    · have e1 : (bits - s % bits) % bits = bits - s % bits := Nat.mod_eq_of_lt (by omega)
+      rw [e1]
+      have := rotl_rotl_inv bits (val a) (bits - s % bits) (by omega) ha.val_lt
+      have e2 : bits - (bits - s % bits) = s % bits := by omega
+      rwa [e2] at this
+
+/-- rotation is the cyclic permutation of the `bits` bit positions: bit `i` of `rotate_left(a, s)`
+    is bit `(i − s) mod bits` of `a`. -/
+theorem rotate_left_testBit (bits : ℕ) (a : List ℕ) (s i : ℕ) (ha : Canon bits a) (hi : i < bits) :
+    (val (rotateLeft bits a s)).testBit i = (val a).testBit ((i + bits - s % bits) % bits) := by
+  rw [(rotate_left_spec bits a s ha).2.2]
+  exact rotlNat_testBit bits (val a) (s % bits) i (Nat.le_of_lt (Nat.mod_lt _ (by omega))) ha.val_lt hi
+
+/-- bit `i` of `rotate_right(a, s)` is bit `(i + s) mod bits` of `a`. -/
+theorem rotate_right_testBit (bits : ℕ) (a : List ℕ) (s i : ℕ) (ha : Canon bits a) (hi : i < bits) :
+    (val (rotateRight bits a s)).testBit i = (val a).testBit ((i + s) % bits) := by
+  rw [(rotate_right_spec bits a s ha).2.2]
+  have hpos : 0 < bits := by omega
+  have hk : s % bits < bits := Nat.mod_lt _ hpos
+  rw [rotlNat_testBit bits (val a) _ i (Nat.le_of_lt (Nat.mod_lt _ hpos)) ha.val_lt hi]
+  congr 1
+  by_cases hz : s % bits = 0
+  · rw [hz, Nat.sub_zero, Nat.mod_self, Nat.sub_zero, Nat.add_mod_right]
+    rw [Nat.add_mod, hz, Nat.add_zero, Nat.mod_mod]
+  · rw [Nat.mod_eq_of_lt (show bits - s % bits < bits by omega)]
+    have : i + bits - (bits - s % bits) = i + s % bits := by omega
+    rw [this, Nat.add_mod_mod]
+
+/-- `arithmetic_shr`: canonical; the value is the logical shift plus the sign fill; bit `i` of the
+    result is bit `min (i+s) (bits−1)` of `a`, i.e. bit `BITS−1` is replicated into the vacated
+    positions. -/
+theorem arithmetic_shr_spec (bits : ℕ) (a : List ℕ) (s : ℕ) (ha : Canon bits a) :
+    Canon bits (arithmeticShr bits a s)
+    ∧ val (arithmeticShr bits a s)
+        = val a / 2 ^ s + (if (val a).testBit (bits - 1) then 2 ^ bits - 2 ^ (bits - s) else 0)
+    ∧ ∀ i, i < bits →
+        (val (arithmeticShr bits a s)).testBit i = (val a).testBit (min (i + s) (bits - 1)) := by
+  unfold arithmeticShr
+  rcases Nat.eq_zero_or_pos bits with h0 | hpos
+  · subst h0
+    have ea := canon_zero_bits a ha
+    subst ea
+    simp [(zero_canon 0).1, (zero_canon 0).2]
+  · have hne : bits ≠ 0 := by omega
+    simp only [hne, if_false]
+    obtain ⟨r1, r2⟩ := wrapping_shr_spec bits a s ha
+    rw [bit_spec bits a ha.2.1]
+    have hlt : bits - 1 < bits := by omega
+    simp only [hlt, decide_true, Bool.true_and]
+    cases hsign : (val a).testBit (bits - 1)
+    · simp only [Bool.false_eq_true, if_false, Nat.add_zero]
+      refine ⟨r1, r2, ?_⟩
+      intro i hi
+      rw [r2, Nat.testBit_div_two_pow]
+      by_cases h : i + s ≤ bits - 1
+      · rw [Nat.min_eq_left h]
+      · rw [Nat.min_eq_right (by omega), hsign]
+        exact Nat.testBit_lt_two_pow
+          (lt_of_lt_of_le ha.val_lt (Nat.pow_le_pow_right (by norm_num) (by omega)))
+    · simp only [if_true]
+      obtain ⟨l1, l2⟩ := wrapping_shl_spec bits (maxU bits) (bits - s) (maxU_canon bits).1
+      obtain ⟨o1, o2, o3⟩ := bitOr_spec _ _ (by rw [l1.1, r1.1]) r1.2.1 l1.2.1
+      obtain ⟨q1, q2, q3⟩ := ashr_or bits (val a) s ha.val_lt
+      have hv : val (bitOr (wrappingShr bits a s) (wrappingShl bits (maxU bits) (bits - s)))
+          = val a / 2 ^ s + (2 ^ bits - 2 ^ (bits - s)) := by
+        rw [o1, r2, l2, (maxU_canon bits).2, q1]
+      refine ⟨⟨by rw [o2, r1.1], o3, by rw [hv]; exact q2⟩, hv, ?_⟩
+      intro i hi
+      rw [hv, q3 i hi]
+      by_cases h : i + s < bits
+      · simp only [h, if_true]; rw [Nat.min_eq_left (by omega)]
+      · simp only [h, if_false]; rw [Nat.min_eq_right (by omega), hsign]
+
+/-- `<<` with a `Uint`-typed amount of **any** magnitude (`BITS` is a `usize`, so `bits < 2^64`):
+    the result is `a·2^t mod 2^bits` for the full value `t` of the amount. Covers `Shl<Uint>`,
+    `Shl<&Uint>`, `ShlAssign<Uint>`, `ShlAssign<&Uint>`. -/
+theorem shl_uint_spec (bits : ℕ) (a t : List ℕ) (hb : bits < 2 ^ 64) (ha : Canon bits a) :
+    Canon bits (shlUint bits a t) ∧ val (shlUint bits a t) = val a * 2 ^ val t % 2 ^ bits := by
+  unfold shlUint
+  rcases Nat.eq_zero_or_pos bits with h0 | hpos
+  · subst h0
+    have ea := canon_zero_bits a ha
+    subst ea
+    simp [Nat.mod_one, ha]
+  · have hne : bits ≠ 0 := by omega
+    simp only [hne, if_false]
+    cases t with
+    | nil => simp only [List.drop_nil, List.headD_nil, val_nil]
+             have : isNonzero [] = false := rfl
+             simp only [this, Bool.false_eq_true, if_false]
+             exact wrapping_shl_spec bits a 0 ha
+    | cons x xs =>
+      simp only [List.drop_succ_cons, List.drop_zero, List.headD_cons, val_cons]
+      by_cases hnz : isNonzero xs = true
+      · simp only [hnz, if_true]
+        refine ⟨(zero_canon bits).1, ?_⟩
+        rw [(zero_canon bits).2]
+        have h1 : 1 ≤ val xs := Nat.one_le_iff_ne_zero.mpr ((isNonzero_iff xs).mp hnz)
+        have h2 : bits ≤ x + W * val xs := by
+          have : W * 1 ≤ W * val xs := Nat.mul_le_mul_left _ h1
+          unfold W at *; omega
+        obtain ⟨k, hk⟩ : 2 ^ bits ∣ 2 ^ (x + W * val xs) := pow_dvd_pow 2 h2
+        rw [hk, ← Nat.mul_assoc, Nat.mul_comm (val a), Nat.mul_assoc, Nat.mul_mod_right]
+      · simp only [hnz]
+        have h0 : val xs = 0 := by
+          by_contra hc; exact hnz ((isNonzero_iff xs).mpr hc)
+        rw [h0, Nat.mul_zero, Nat.add_zero]
+        exact wrapping_shl_spec bits a x ha
+
+/-- `>>` with a `Uint`-typed amount of any magnitude: `⌊a / 2^t⌋`. -/
+theorem shr_uint_spec (bits : ℕ) (a t : List ℕ) (hb : bits < 2 ^ 64) (ha : Canon bits a) :
+    Canon bits (shrUint bits a t) ∧ val (shrUint bits a t) = val a / 2 ^ val t := by
+  unfold shrUint
+  rcases Nat.eq_zero_or_pos bits with h0 | hpos
+  · subst h0
+    have ea := canon_zero_bits a ha
+    subst ea
+    simp [ha]
+  · have hne : bits ≠ 0 := by omega
+    simp only [hne, if_false]
+    cases t with
+    | nil => simp only [List.drop_nil, List.headD_nil, val_nil]
+             have : isNonzero [] = false := rfl
+             simp only [this, Bool.false_eq_true, if_false]
+             exact wrapping_shr_spec bits a 0 ha
+    | cons x xs =>
+      simp only [List.drop_succ_cons, List.drop_zero, List.headD_cons, val_cons]
+      by_cases hnz : isNonzero xs = true
+      · simp only [hnz, if_true]
+        refine ⟨(zero_canon bits).1, ?_⟩
+        rw [(zero_canon bits).2]
+        have h1 : 1 ≤ val xs := Nat.one_le_iff_ne_zero.mpr ((isNonzero_iff xs).mp hnz)
+        have h2 : bits ≤ x + W * val xs := by
+          have : W * 1 ≤ W * val xs := Nat.mul_le_mul_left _ h1
+          unfold W at *; omega
+        have : val a < 2 ^ (x + W * val xs) :=
+          lt_of_lt_of_le ha.val_lt (Nat.pow_le_pow_right (by norm_num) h2)
+        rw [Nat.div_eq_of_lt this]
+      · simp only [hnz]
+        have h0 : val xs = 0 := by
+          by_contra hc; exact hnz ((isNonzero_iff xs).mpr hc)
+        rw [h0, Nat.mul_zero, Nat.add_zero]
+        exact wrapping_shr_spec bits a x ha
+
+
+/-! Non-vacuity: concrete instances of the three defect patterns of DESIGN §9, evaluated by the
+kernel on the model (a bit leaving through a whole-limb move, through the top-limb mask, and a
+`Uint` amount of `2^64`). -/
+example : Canon 65 [0, 1] ∧ Canon 128 [0, 1] ∧ Canon 128 [1, 0] := by
+  refine ⟨⟨rfl, ?_, ?_⟩, ⟨rfl, ?_, ?_⟩, ⟨rfl, ?_, ?_⟩⟩ <;> simp [AllLt, W]
+example : overflowingShl 128 [0, 1] 64 = ([0, 0], true) := by decide +kernel
+example : overflowingShl 65 [0, 1] 1 = ([0, 0], true) := by decide +kernel
+example : overflowingShr 128 [1, 0] 64 = ([0, 0], true) := by decide +kernel
+example : shlUint 128 [1, 0] [0, 1] = [0, 0] := by decide +kernel
+example : rotateLeft 65 [1, 1] 64 = [2 ^ 63, 1] := by decide +kernel
+example : arithmeticShr 65 [0, 1] 3 = [2 ^ 61 + 2 ^ 62 + 2 ^ 63, 1] := by decide +kernel
+
 end Ruint.C05
